@@ -74,3 +74,31 @@ def ident(v):
 
 
 FNS = {f.__name__: f for f in (add10, mul3, pair, is_odd, is_small, sortkey, sortkey_neg, ident)}
+
+
+class EqAny:
+    """An example that compares equal to everything (like unittest.mock.ANY); identity is its tag."""
+
+    def __init__(self, tag):
+        self.tag = tag
+
+    def __eq__(self, other):
+        return True
+
+    def __hash__(self):
+        return 0
+
+    def __repr__(self):
+        return f'EqAny({self.tag})'
+
+
+def special_values(name):
+    """Unusual example types for the explorers (falsy values, arrays whose == is element-wise, equal-to-all)."""
+    import numpy as np
+    if name == 'falsy':
+        return [None, 0, '', [], 0.0]
+    if name == 'arrays':
+        return [np.array([1, 2]), np.array([3, 4]), np.array([5, 6])]
+    if name == 'eqany':
+        return [EqAny(1), EqAny(2), EqAny(3)]
+    raise ValueError(name)
